@@ -100,3 +100,22 @@ Theorem C18_identity_to_mutates_self_refuted : exists (cs : list (call nat)) (st
   nth_error st j = Some c /\ caller_owned nat c = true /\ nth_error (prun nat (map (to_pstep nat) cs) [] st) j <> Some c.
 Proof. exact identity_to_mutates_self_refuted. Qed.
 Print Assumptions C18_identity_to_mutates_self_refuted.
+
+(* in-place accumulation inside a product (Sum / KronSum / running sums): with a freshly allocated accumulator every
+   sum-like node passes the taint analysis whatever its children; accumulating into the FIRST term is rejected as soon as
+   the first child may return its argument (Identity, products / Kronecker products of such) and the operand is the
+   caller's - and executing it does change the caller's cell *)
+Theorem C18_accumulate_fresh_ok : forall (D : Type) (ms : list ktree) (env : list bool) (args : list ref) (ad wd : nat -> D),
+  step_ok D env {| psg := sig_accumulate AccFresh ms; pargs := args; padata := ad; pwdata := wd |} = true.
+Proof. exact accumulate_fresh_ok. Qed.
+Print Assumptions C18_accumulate_fresh_ok.
+Theorem C18_accumulate_first_term_rejected : forall (D : Type) (first : ktree) (rest : list ktree) (A x : handle) (ad wd : nat -> D),
+  alias_mm first <> No ->
+  step_ok D [] {| psg := sig_accumulate AccFirstTerm (first :: rest); pargs := [RCaller A; RCaller x]; padata := ad; pwdata := wd |} = false.
+Proof. exact accumulate_first_term_rejected. Qed.
+Print Assumptions C18_accumulate_first_term_rejected.
+Theorem C18_accumulate_first_term_writes_caller : exists (st : store nat) (p : pstep nat) (j : nat) (c : cell nat),
+  psg nat p = sig_accumulate AccFirstTerm [KIdent; KDense] /\
+  nth_error st j = Some c /\ caller_owned nat c = true /\ nth_error (prun nat [p] [] st) j <> Some c.
+Proof. exact accumulate_first_term_writes_caller. Qed.
+Print Assumptions C18_accumulate_first_term_writes_caller.
